@@ -25,6 +25,11 @@ def niso():
     return {x["symbol"]: len(x["isotopes"]) for x in rows if x["table"] == "global"}
 
 
+def max_abundance():
+    rows = [json.loads(l) for l in (WORK / "dump.jsonl").read_text().splitlines() if l.strip()]
+    return {x["symbol"]: max(float(Fraction(i["abundance"])) for i in x["isotopes"]) for x in rows if x["table"] == "global"}
+
+
 def parse_dist(s):
     if s == "-":
         return []
@@ -47,9 +52,36 @@ def gen_cases(r: Run):
     for pairs, t in corpus:
         for form in ("vec", "map"):
             cases.append((pairs, t, form))
+    # an element whose every arrangement falls below the threshold (the running product becomes EMPTY), placed
+    # before / between / after other elements: the result must stay empty
+    ma = max_abundance()
+    want = 120 if r.tier == "thorough" else 24
+    lim = LIMIT if r.tier == "thorough" else QUICK_LIMIT
+    got = 0
+    for _ in range(4000):
+        if got >= want:
+            break
+        x = rng.choice(multi)
+        t = rng.choice([Fraction(1, 100), Fraction(3, 10), Fraction(6, 10), Fraction(1, 1000)])
+        k = 1
+        while ma[x] ** k >= float(t) and k < 40:
+            k += 1
+        if ma[x] ** k >= float(t):
+            continue
+        others = rng.sample([s for s in syms if s != x], rng.choice([1, 1, 2]))
+        ents = [(o, rng.choice([1, 2, 3])) for o in others]
+        ents.insert(rng.randint(0, len(ents)), (x, k))
+        size = 1
+        for e, c in ents:
+            size *= ni[e] ** c
+        if size > lim:
+            continue   # the oracle enumerates every arrangement
+        got += 1
+        cases.append((",".join(f"{e}:0={c}" for e, c in ents), t, "vec"))
+    base = len(cases)
     n = 400 if r.tier == "thorough" else 70
     tries = 0
-    while len(cases) < 26 + n and tries < 20000:
+    while len(cases) < base + n and tries < 20000:
         tries += 1
         k = rng.choice([1, 1, 2, 2, 3, 4])
         els = rng.sample(multi if rng.random() < 0.8 else syms, k)
